@@ -32,7 +32,12 @@ Definition np_eqb (a b : np) : bool :=
 Definition world_eqb (a b : world) : bool :=
   np_eqb (w_np a) (w_np b)
   && list_eqb (fun x y => (fst x =? fst y) && actor_eqb (snd x) (snd y)) (w_actors a) (w_actors b)
-  && list_eqb Z.eqb (w_durs a) (w_durs b) && list_eqb Z.eqb (w_reg a) (w_reg b).
+  && list_eqb Z.eqb (w_durs a) (w_durs b) && list_eqb Z.eqb (w_reg a) (w_reg b)
+  && match w_pool a, w_pool b with
+     | None, None => true
+     | Some p, Some q => list_eqb Z.eqb (pl_owners p) (pl_owners q) && (pl_quorum p =? pl_quorum q)
+                         && (pl_period p =? pl_period q) && (pl_enact p =? pl_enact q)
+     | _, _ => false end.
 
 Fixpoint ins_vote (who opt : Z) (l : list (Z * Z)) : list (Z * Z) :=
   match l with
@@ -118,7 +123,7 @@ Definition upd_rec (r' : prec) (l : list prec) : list prec := map (fun r => if r
 Definition spec_effect (ct : ccontent) (w : world) : world :=
   match ct with
   | CSetProp pid v => match np_put pid v (w_np w) with Some n => with_np w n | None => w end
-  | CRegistry key hash => mkW (w_np w) (w_actors w) (w_durs w) (set_ix key hash (w_reg w))
+  | CRegistry key hash => with_reg w (set_ix key hash (w_reg w))
   | CWhitelist who perm =>
       let a := match get_actor who (w_actors w) with Some a => a | None => default_actor end in
       with_actors w (put_actor who (mkA (a_active a) (a_veto a) (ins_sorted perm (a_wl a))) (w_actors w))
@@ -127,25 +132,47 @@ Definition spec_effect (ct : ccontent) (w : world) : world :=
       | Some a => with_actors w (put_actor who (mkA (a_active a) (a_veto a) (del perm (a_wl a))) (w_actors w))
       | None => w end
   | CDurations l => with_durs w (fold_left (fun d e => set_ix (fst e) (snd e) d) l (w_durs w))
+  | CPoolUpdate name owners q period enact => with_pool w (Some (mkPool owners q period enact))
   end.
 
 Definition cl (b : bool) (name : string) : list string := if b then [] else [name].
 
-(* eligibility and counts, from the world snapshot *)
-Definition eligible (w : world) (perm : Z) : Z := Z.of_nat (List.length (filter (fun ka => mem perm (a_wl (snd ka))) (w_actors w))).
-Definition veto_capable (w : world) (perm : Z) : Z :=
-  Z.of_nat (List.length (filter (fun ka => mem perm (a_wl (snd ka)) && a_veto (snd ka)) (w_actors w))).
+(* eligibility and counts, from the world snapshot.  For a dynamic-voter content (vote permission 0)
+   the eligible voters are the owner accounts of its pool; the veto-capable ones are those of them
+   whose actor record has the veto option. *)
+Fixpoint uniq (l : list Z) : list Z :=
+  match l with [] => [] | x :: r => if mem x r then uniq r else x :: uniq r end.
+Definition dyn_owners (w : world) (ct : ccontent) : list Z :=
+  match ct, w_pool w with CPoolUpdate 1 _ _ _ _, Some p => uniq (pl_owners p) | _, _ => [] end.
+Definition eligible (w : world) (ct : ccontent) : Z :=
+  if vote_perm ct =? 0 then Z.of_nat (List.length (dyn_owners w ct))
+  else Z.of_nat (List.length (filter (fun ka => mem (vote_perm ct) (a_wl (snd ka))) (w_actors w))).
+Definition veto_capable (w : world) (ct : ccontent) : Z :=
+  if vote_perm ct =? 0 then
+    Z.of_nat (List.length (filter (fun o => match get_actor o (w_actors w) with Some a => a_veto a | None => false end) (dyn_owners w ct)))
+  else Z.of_nat (List.length (filter (fun ka => mem (vote_perm ct) (a_wl (snd ka)) && a_veto (snd ka)) (w_actors w))).
+Definition may_vote (w : world) (who : Z) (ct : ccontent) : bool :=
+  w_is_active w who && (if vote_perm ct =? 0 then mem who (dyn_owners w ct) else w_has_perm w who (vote_perm ct)).
+Definition spec_quorum (w : world) (ct : ccontent) : Z :=
+  if vote_perm ct =? 0 then match ct, w_pool w with CPoolUpdate 1 _ _ _ _, Some p => pl_quorum p | _, _ => 0 end
+  else n_quorum (w_np w).
+(* voting window and enactment delay fixed at submission *)
+Definition spec_window (w : world) (ct : ccontent) : Z * Z :=
+  if vote_perm ct =? 0 then match ct, w_pool w with CPoolUpdate 1 _ _ _ _, Some p => (pl_period p, pl_enact p) | _, _ => (0, 0) end
+  else let d := get_ix (ptype ct) (w_durs w) in
+       ((if d <? n_endtime (w_np w) then n_endtime (w_np w) else d), n_enact (w_np w)).
 Definition nopt (o : Z) (vs : list (Z * Z)) : Z := Z.of_nat (List.length (filter (fun v => snd v =? o) vs)).
 
 (* "passed": quorum of the eligible voters voted, yes > half of the votes cast, veto < half of
    the veto-capable voters *)
 Definition pass_clauses (w : world) (r : prec) : list string :=
-  let perm := vote_perm (r_ct r) in
+  let ct := r_ct r in
   let total := Z.of_nat (List.length (r_votes r)) in
-  let vcap := veto_capable w perm in
-  cl (n_quorum (w_np w) * eligible w perm <=? total * PREC) "passed_without_quorum"
+  let vcap := veto_capable w ct in
+  cl (spec_quorum w ct * eligible w ct <=? total * PREC) "passed_without_quorum"
   ++ cl (total <? 2 * nopt 1 (r_votes r)) "passed_without_majority"
-  ++ cl ((vcap =? 0) || (2 * nopt 4 (r_votes r) <? vcap)) "passed_despite_veto".
+  ++ cl ((vcap =? 0) || (2 * nopt 4 (r_votes r) <? vcap))
+        (if vote_perm ct =? 0 then "passed_despite_veto:dynamic_voter_proposal" else "passed_despite_veto").
 
 Definition obs_result (id : Z) (o : obs) : option (Z * Z) :=
   option_map (fun e => snd (fst e)) (find (fun e => fst (fst e) =? id) (o_props o)).
@@ -208,7 +235,7 @@ Definition prefix_world (recs : list prec) (w : world) (l : list (Z * bool)) : w
 Definition kind_name (ct : ccontent) : string :=
   match ct with
   | CSetProp _ _ => ":setprop" | CRegistry _ _ => ":registry" | CWhitelist _ _ => ":whitelist"
-  | CUnwhitelist _ _ => ":unwhitelist" | CDurations _ => ":durations" end.
+  | CUnwhitelist _ _ => ":unwhitelist" | CDurations _ => ":durations" | CPoolUpdate _ _ _ _ _ => ":poolupdate" end.
 Definition applied_kinds (recs : list prec) (w w' : world) (l : list (Z * bool)) : string :=
   if world_eqb w' (prefix_world recs w l) then ":durations:entry_below_min_end_time"
   else fold_right (fun (a : Z * bool) acc => if snd a then match find_rec (fst a) recs with Some r => String.append (kind_name (r_ct r)) acc | None => acc end else acc) EmptyString l.
@@ -242,11 +269,10 @@ Definition ck_step (k : ck) (st : Z * Z * hop * obs) : list string * ck :=
     match hp with
     | HSubmit who ct =>
         if accepted then
-          let d := get_ix (ptype ct) (w_durs w) in
-          let vend := t + (if d <? n_endtime (w_np w) then n_endtime (w_np w) else d) in
+          let vend := t + fst (spec_window w ct) in
           (cl (match find_rec (o_new_id o) recs2 with None => true | Some _ => false end) "proposal_id_reused"
            ++ cl (match obs_result (o_new_id o) o with Some (4, 0) => true | _ => false end) "new_proposal_not_pending",
-           recs2 ++ [mkR (o_new_id o) ct vend (vend + n_enact (w_np w)) (h + n_endblocks (w_np w)) 4 None 0 []])
+           recs2 ++ [mkR (o_new_id o) ct vend (vend + snd (spec_window w ct)) (h + n_endblocks (w_np w)) 4 None 0 []])
         else ([], recs2)
     | HVote who id opt =>
         match find_rec id recs2 with
@@ -255,7 +281,7 @@ Definition ck_step (k : ck) (st : Z * Z * hop * obs) : list string * ck :=
             if accepted then
               let vs := ins_vote who opt (r_votes r) in
               (cl (t <=? r_vend r) "late_vote_accepted"
-               ++ cl (w_is_active w who && w_has_perm w who (vote_perm (r_ct r))) "vote_without_permission"
+               ++ cl (may_vote w who (r_ct r)) "vote_without_permission"
                ++ cl (list_eqb zz_eqb vs (o_votes o)) "revote_not_replaced",
                upd_rec (mkR (r_id r) (r_ct r) (r_vend r) (r_eend r) (r_minv r) (r_res r) (r_fin r) (r_napplied r) vs) recs2)
             else (cl (list_eqb zz_eqb (r_votes r) (o_votes o)) "rejected_vote_recorded", recs2)
